@@ -8,7 +8,7 @@
 From Rocfl Require Import Base.Bytes Model.VersionNum Model.VCode Model.KnownC17 Proofs.VCodeFacts.
 Open Scope N_scope.
 
-(** ** vnums_cost_linear: cost of validate_version_nums (serde.rs:1312-1382, after the repairs
+(** ** vnums_cost_linear: cost of validate_version_nums (serde.rs:1321-1391, after the repairs
     719e6a5 and f842f41) *)
 
 (** the loop, in both build modes and for EVERY list of u32 version numbers (any order, any
@@ -41,7 +41,7 @@ Proof. exact max_listed_pinned. Qed.
 Print Assumptions C17_vnums_constant.
 
 (** for the "versions" object of an inventory, whatever its keys and values are: the set handed
-    to validate_version_nums (serde.rs:615) makes it return normally with a cost linear in the
+    to validate_version_nums (serde.rs:619) makes it return normally with a cost linear in the
     number of keys, and the E010 count is the one the model of the visitor records *)
 Theorem C17_versions_block_cost : forall dbg l nums keys e ab,
   versions_value l = (nums, keys, e, ab) ->
@@ -76,9 +76,9 @@ Theorem C17_vnums_zero_cost_contiguous : forall vs, incr_from 1 vs ->
 Proof. exact vnums_cost_zero_contiguous. Qed.
 Print Assumptions C17_vnums_zero_cost_contiguous.
 
-(** ** inventory_new_guarded: serde.rs:401-513 against inventory.rs:95-131 *)
+(** ** inventory_new_guarded: serde.rs:402-516 against inventory.rs:95-131 *)
 
-(** no error recorded => an inventory is returned: all the [.unwrap()]s of serde.rs:500-512 are
+(** no error recorded => an inventory is returned: all the [.unwrap()]s of serde.rs:504-514 are
     guarded, for every document (since commit b116ae5 also for "id": "") *)
 Theorem C17_inventory_new_guarded : forall items r e,
   visit items = (r, e) -> has_errors e = false -> r = PInv.
@@ -104,11 +104,33 @@ Print Assumptions C17_visit_no_panic.
 
 (** ** get_version_guarded, content_paths_guarded: mod.rs:607-641, 1534-1707 *)
 
-Theorem C17_get_version_guarded : forall dbg root dirs,
+(** [found] = ANY inventories that parse without error in the version directories below the
+    head, whatever their heads are (a copy of v1's inventory in v2, of the root inventory in v1 ...):
+    the head check of validate_inventory (mod.rs:1008-1019, [head_accepted] in the model) keeps those
+    with a foreign head away from the loop, and for the others every [get_version(..).unwrap()]
+    of mod.rs:1551-1552, 1624-1625 finds its version.  [contiguous]: versions v1..head all present,
+    which an inventory without recorded error has (C17_vnums_zero_cost_contiguous, E010/E040). *)
+Theorem C17_get_version_guarded : forall dbg root found,
+  contiguous root -> Forall (found_ok root) found -> desc_from (i_head root) found ->
+  object_cross_check dbg root found <> XPanic SGetVersion.
+Proof. exact object_cross_check_get_version_guarded. Qed.
+Print Assumptions C17_get_version_guarded.
+
+(** the loop itself, for inventories whose head is at least their directory number *)
+Theorem C17_get_version_guarded_loop : forall dbg root dirs,
   contiguous root -> Forall (dir_ok root) dirs -> desc_from (i_head root) dirs ->
   cross_check dbg root dirs <> XPanic SGetVersion.
 Proof. exact cross_check_get_version_guarded. Qed.
-Print Assumptions C17_get_version_guarded.
+Print Assumptions C17_get_version_guarded_loop.
+
+(** the dependency is real: without the rejection a valid inventory with a lower head (v1's
+    inventory found in v2) panics at mod.rs:1552; with it: one E040, no cross check *)
+Theorem C17_get_version_needs_head_check :
+  cross_check false w3_root [(2, w3_v1)] = XPanic SGetVersion /\
+  object_cross_check false w3_root [(2, w3_v1)] = XOk 0 /\ head_rejected_count [(2, w3_v1)] = 1 /\
+  contiguous w3_root /\ found_ok w3_root (2, w3_v1).
+Proof. exact get_version_needs_head_check. Qed.
+Print Assumptions C17_get_version_needs_head_check.
 
 Theorem C17_content_paths_guarded : forall dbg root dirs,
   good root -> Forall (fun d => good (snd d)) dirs ->
@@ -148,7 +170,7 @@ Theorem C17_known_empty_set_reaches_pretty_print :
 Proof. exact empty_set_reaches_pretty_print. Qed.
 Print Assumptions C17_known_empty_set_reaches_pretty_print.
 
-(** ** content_paths_iter_terminates: mod.rs:2103-2124 *)
+(** ** content_paths_iter_terminates: mod.rs:2106-2127 *)
 
 Theorem C17_content_paths_iter_terminates : forall dbg has fuel n w,
   1 <= n -> n <= N.of_nat fuel + 1 ->
@@ -163,7 +185,7 @@ Theorem C17_content_paths_iter_needs_number_equality :
 Proof. exact cpi_walk_strict_eq_panics. Qed.
 Print Assumptions C17_content_paths_iter_needs_number_equality.
 
-(** ** iterator_continues: mod.rs:1923-2018 *)
+(** ** iterator_continues: mod.rs:1923-2022 *)
 
 Theorem C17_iterator_continues : forall fuel cur stack,
   (lsize cur + ssize stack < fuel)%nat ->
